@@ -10,30 +10,34 @@ use refsem::sem::AtomTables;
 use serde_json::{json, Map, Value};
 use std::collections::BTreeMap;
 
-/// Which property does a disagreement belong to?
-pub fn owner(d: &Disagreement) -> &'static str {
+/// Which properties does a disagreement belong to? A wrong `next()` belongs to every property whose
+/// quantifier covers the operations of the history that led to it.
+pub fn owners(d: &Disagreement) -> Vec<&'static str> {
     match d.kind {
-        Kind::Mode => "C06",
-        Kind::Position | Kind::TokenPosition | Kind::QueryImpure => "C09",
-        Kind::Peek | Kind::PeekImpure => "C11",
+        Kind::Mode => vec!["C06"],
+        Kind::Position | Kind::TokenPosition | Kind::QueryImpure => vec!["C09"],
+        Kind::Peek | Kind::PeekImpure => vec!["C11"],
         Kind::Next => {
+            let mut v = vec![];
             if d.history_has_reset() {
-                "C10"
-            } else if d.history_has_peek() {
-                "C11"
+                v.push("C10");
             } else {
-                "C06"
+                v.push("C06");
             }
+            if d.history_has_peek() {
+                v.push("C11");
+            }
+            v
         }
         Kind::Panic => match d.at {
-            Op::Peek(_) => "C11",
-            Op::AdvPeek(_) | Op::SetOffset(_) => "C10",
-            Op::SetMode(_) => "C06",
+            Op::Peek(_) => vec!["C11", "C07"],
+            Op::AdvPeek(_) | Op::SetOffset(_) => vec!["C10", "C07"],
+            Op::SetMode(_) => vec!["C06", "C07"],
             Op::Next => {
                 if d.history_has_reset() {
-                    "C10"
+                    vec!["C10", "C07"]
                 } else {
-                    "C07"
+                    vec!["C07", "C06"]
                 }
             }
         },
@@ -41,6 +45,8 @@ pub fn owner(d: &Disagreement) -> &'static str {
 }
 
 pub struct Family {
+    /// histories up to this length are enumerated without deduplication
+    pub stateless_depth: usize,
     pub name: String,
     pub cfgs: Vec<Cfg>,
     pub inputs: Vec<String>,
@@ -149,6 +155,7 @@ pub fn families(prop: &str, tier: Tier) -> Vec<Family> {
             let lists = pattern_lists();
             let ops = OpSet { next: true, peeks: vec![1, 2], adv: vec![], offsets: Offsets::None, set_modes: true, with_positions: false, positions: false };
             f.push(Family {
+                stateless_depth: 0,
                 name: "mode-graphs-2".into(),
                 cfgs: mode_graphs(2, &lists, 1),
                 inputs: inputs(&['a', 'b', 'x'], if q { 3 } else { 4 }),
@@ -156,12 +163,13 @@ pub fn families(prop: &str, tier: Tier) -> Vec<Family> {
                 describe: "2 modes x 6 pattern lists each x all 27^2 transition tables over token types {0,1,2} (shared between modes, self-loops included)".into(),
             });
             if q {
-                f.push(Family { name: "mode-graphs-3".into(), cfgs: mode_graphs(3, &lists[..3], 997), inputs: inputs(&['a', 'b', 'x'], 3), ops: ops.clone(), describe: "3 modes x 3 pattern lists each x every 997th of the 64^3 transition tables (a fixed arithmetic sub-sequence, enumerated completely)".into() });
+                f.push(Family { stateless_depth: 0, name: "mode-graphs-3".into(), cfgs: mode_graphs(3, &lists[..3], 997), inputs: inputs(&['a', 'b', 'x'], 3), ops: ops.clone(), describe: "3 modes x 3 pattern lists each x every 997th of the 64^3 transition tables (a fixed arithmetic sub-sequence, enumerated completely)".into() });
             } else {
-                f.push(Family { name: "mode-graphs-3".into(), cfgs: mode_graphs(3, &lists[..3], 7), inputs: inputs(&['a', 'b', 'x'], 4), ops: ops.clone(), describe: "3 modes x 3 pattern lists each x every 7th of the 64^3 transition tables".into() });
+                f.push(Family { stateless_depth: 0, name: "mode-graphs-3".into(), cfgs: mode_graphs(3, &lists[..3], 7), inputs: inputs(&['a', 'b', 'x'], 4), ops: ops.clone(), describe: "3 modes x 3 pattern lists each x every 7th of the 64^3 transition tables".into() });
             }
             // gaps: only next/set_mode driven (peek with unmatched characters is C11's)
             f.push(Family {
+                stateless_depth: 0,
                 name: "gaps".into(),
                 cfgs: gap_cfgs(),
                 inputs: inputs(&['a', 'b', 'x', '\n'], if q { 4 } else { 5 }),
@@ -172,6 +180,7 @@ pub fn families(prop: &str, tier: Tier) -> Vec<Family> {
         "C09" => {
             let l = if q { 4 } else { 5 };
             f.push(Family {
+                stateless_depth: 0,
                 name: "with_positions".into(),
                 cfgs: newline_cfgs(),
                 inputs: inputs(&['a', 'b', '\n', 'é'], l),
@@ -179,6 +188,7 @@ pub fn families(prop: &str, tier: Tier) -> Vec<Family> {
                 describe: "WithPositions<FindMatches>: next / set_offset(every already scanned boundary) / set_mode; position(o) for every o <= contiguously scanned prefix in every state".into(),
             });
             f.push(Family {
+                stateless_depth: 0,
                 name: "bare+peek".into(),
                 cfgs: newline_cfgs(),
                 inputs: inputs(&['a', 'b', '\n', 'é'], if q { 3 } else { 5 }),
@@ -189,25 +199,25 @@ pub fn families(prop: &str, tier: Tier) -> Vec<Family> {
         "C10" => {
             let ops = OpSet { next: true, peeks: vec![2], adv: vec![0, 1], offsets: Offsets::All, set_modes: true, with_positions: false, positions: false };
             let lists = pattern_lists();
-            f.push(Family { name: "mode-graphs-2 (subset)".into(), cfgs: mode_graphs(2, &lists[1..4], if q { 13 } else { 3 }), inputs: inputs(&['a', 'b', 'x'], if q { 3 } else { 4 }), ops: ops.clone(), describe: "2 modes x 3 pattern lists x every 13th (thorough: 3rd) of the 729 transition tables".into() });
-            f.push(Family { name: "lookahead modes".into(), cfgs: lookahead_mode_cfgs(), inputs: inputs(&['a', 'b', 'x'], if q { 4 } else { 5 }), ops: ops.clone(), describe: "modes with positive/negative lookaheads and transitions".into() });
-            f.push(Family { name: "multibyte+newline".into(), cfgs: newline_cfgs(), inputs: inputs(&['a', 'b', '\n', 'é'], if q { 3 } else { 4 }), ops, describe: "newline/multi-byte configurations of C09".into() });
+            f.push(Family { stateless_depth: 0, name: "mode-graphs-2 (subset)".into(), cfgs: mode_graphs(2, &lists[1..4], if q { 13 } else { 3 }), inputs: inputs(&['a', 'b', 'x'], if q { 3 } else { 4 }), ops: ops.clone(), describe: "2 modes x 3 pattern lists x every 13th (thorough: 3rd) of the 729 transition tables".into() });
+            f.push(Family { stateless_depth: 0, name: "lookahead modes".into(), cfgs: lookahead_mode_cfgs(), inputs: inputs(&['a', 'b', 'x'], if q { 4 } else { 5 }), ops: ops.clone(), describe: "modes with positive/negative lookaheads and transitions".into() });
+            f.push(Family { stateless_depth: 0, name: "multibyte+newline".into(), cfgs: newline_cfgs(), inputs: inputs(&['a', 'b', '\n', 'é'], if q { 3 } else { 4 }), ops, describe: "newline/multi-byte configurations of C09".into() });
         }
         "C11" => {
             let ops = OpSet { next: true, peeks: vec![0, 1, 2, usize::MAX], adv: vec![], offsets: Offsets::None, set_modes: true, with_positions: false, positions: false };
             let lists = pattern_lists();
-            f.push(Family { name: "mode-graphs-2 (subset)".into(), cfgs: mode_graphs(2, &lists, if q { 7 } else { 1 }), inputs: inputs(&['a', 'b', 'x'], if q { 3 } else { 4 }), ops: ops.clone(), describe: "2 modes x 6 pattern lists x every 7th (thorough: every) transition table".into() });
-            f.push(Family { name: "gaps".into(), cfgs: gap_cfgs(), inputs: inputs(&['a', 'b', 'x', '\n'], if q { 4 } else { 5 }), ops: ops.clone(), describe: "pattern sets with characters nothing matches".into() });
+            f.push(Family { stateless_depth: 0, name: "mode-graphs-2 (subset)".into(), cfgs: mode_graphs(2, &lists, if q { 7 } else { 1 }), inputs: inputs(&['a', 'b', 'x'], if q { 3 } else { 4 }), ops: ops.clone(), describe: "2 modes x 6 pattern lists x every 7th (thorough: every) transition table".into() });
+            f.push(Family { stateless_depth: 0, name: "gaps".into(), cfgs: gap_cfgs(), inputs: inputs(&['a', 'b', 'x', '\n'], if q { 4 } else { 5 }), ops: ops.clone(), describe: "pattern sets with characters nothing matches".into() });
             let mut mb = newline_cfgs();
             mb.push(Cfg::single(vec![CPat::new("[aé]+", 0), CPat::new("b", 1), CPat::new("€", 2)]));
             mb.push(Cfg { modes: vec![mode("A", &[("é", 0), ("a", 1)], &[(0, 1)]), mode("B", &[("é+", 0), ("a", 1), ("b", 2)], &[(1, 0)])] });
             let mut ops_mb = ops.clone();
             ops_mb.peeks = vec![1, 2, 3];
-            f.push(Family { name: "multi-byte".into(), cfgs: mb, inputs: inputs(&['a', 'b', 'é', '€', '\n'], if q { 4 } else { 5 }), ops: ops_mb, describe: "tokens containing 2- and 3-byte characters, newline configurations of C09; peek_n(1..3)".into() });
+            f.push(Family { stateless_depth: 0, name: "multi-byte".into(), cfgs: mb, inputs: inputs(&['a', 'b', 'é', '€', '\n'], if q { 4 } else { 5 }), ops: ops_mb, describe: "tokens containing 2- and 3-byte characters, newline configurations of C09; peek_n(1..3)".into() });
             let mut ops2 = ops.clone();
             ops2.offsets = Offsets::All;
             ops2.adv = vec![0];
-            f.push(Family { name: "lookahead modes + resets".into(), cfgs: lookahead_mode_cfgs(), inputs: inputs(&['a', 'b', 'x'], if q { 3 } else { 4 }), ops: ops2, describe: "peek interleaved with set_offset/advance_to on lookahead modes".into() });
+            f.push(Family { stateless_depth: 0, name: "lookahead modes + resets".into(), cfgs: lookahead_mode_cfgs(), inputs: inputs(&['a', 'b', 'x'], if q { 3 } else { 4 }), ops: ops2, describe: "peek interleaved with set_offset/advance_to on lookahead modes".into() });
         }
         _ => unreachable!(),
     }
@@ -331,6 +341,19 @@ pub fn run(prop: &'static str, tier: Tier) -> ! {
     let mut fam_json: Vec<Value> = vec![];
     for fam in &fams {
         let n = fam.cfgs.len();
+        // Hybrid search: histories up to `stateless_depth` are all expanded without deduplication
+        // (so a field the snapshot does not know cannot hide a state), for every `stride`-th
+        // configuration of large families and for all configurations of small ones.
+        let stride = (n / 400).max(1);
+        let stateless_depth = fam.stateless_depth
+            + match (prop, tier) {
+                ("C06", Tier::Quick) => 4,
+                ("C06", Tier::Thorough) => 5,
+                ("C10", Tier::Quick) => 2,
+                ("C10", Tier::Thorough) => 3,
+                (_, Tier::Quick) => 3,
+                (_, Tier::Thorough) => 4,
+            };
         let accs = par_for(n, 1, || Acc { samples: Samples::new(1), ..Default::default() }, |acc, i| {
             let cfg = &fam.cfgs[i];
             let spec = match cfg.to_spec() {
@@ -349,7 +372,7 @@ pub fn run(prop: &'static str, tier: Tier) -> ! {
             };
             for input in &fam.inputs {
                 let table = ScanTable::new(&spec, input, &tables);
-                let ctx = Ctx { key_with_scratch: tier == Tier::Thorough, cfg, spec: &spec, sc: &sc, input, table: &table, ops: &fam.ops };
+                let ctx = Ctx { stateless_depth: if i % stride == 0 { stateless_depth } else { 0 }, key_with_scratch: tier == Tier::Thorough, cfg, spec: &spec, sc: &sc, input, table: &table, ops: &fam.ops };
                 let ex = explore(&ctx);
                 acc.pairs += 1;
                 acc.states += ex.states;
@@ -367,8 +390,9 @@ pub fn run(prop: &'static str, tier: Tier) -> ! {
                 }
                 let mut stop = false;
                 for d in &ex.disagreements {
-                    let o = owner(d);
-                    if o == prop {
+                    let os = owners(d);
+                    let o = os[0];
+                    if os.contains(&prop) {
                         acc.viol.add("", || Violation {
                             key: String::new(),
                             summary: format!("{} on {:?}: after [{}] then {}: {}", cfg.show(), input, d.history.iter().map(|o| o.show()).collect::<Vec<_>>().join(", "), d.at.show(), d.detail),
@@ -408,7 +432,8 @@ pub fn run(prop: &'static str, tier: Tier) -> ! {
             }
         }
         fam_json.push(json!({"family": fam.name, "what": fam.describe, "configurations": n, "inputs": fam.inputs.len(), "pairs_explored": total.pairs - before.0, "states": total.states - before.1, "transitions": total.transitions - before.2,
-            "ops": format!("{:?}", fam.ops)}));
+            "ops": format!("{:?}", fam.ops),
+            "stateless_prefix": format!("all histories of length <= {stateless_depth} expanded without deduplication for every {stride}-th configuration")}));
     }
     let mut scripted = 0usize;
     if prop == "C06" {
